@@ -124,6 +124,32 @@ func (w *c07world) observe(ms *MetadataStore, cs []*c07contact) ([]c07rec, strin
 				w.issue = fmt.Sprintf("GetContactFromGroupPK reports seed %d / metadata %d for contact %d, ListContacts %d / %d", w.seedID(byGroup.PublicRendezvousSeed), w.metaID(byGroup.Metadata), c.id, r.seed, r.meta)
 			}
 		}
+		// and through the listing by state
+		if ac, listed := all[string(c.raw)]; listed {
+			found := 0
+			for _, sc := range ms.ListContactsByStatus(ac.state) {
+				if string(sc.Pk) == string(c.raw) {
+					found++
+					if string(sc.PublicRendezvousSeed) != string(ac.contact.PublicRendezvousSeed) || string(sc.Metadata) != string(ac.contact.Metadata) {
+						w.issue = fmt.Sprintf("ListContactsByStatus(%v) reports another seed/metadata for contact %d than ListContacts", ac.state, c.id)
+					}
+				}
+			}
+			if found != 1 {
+				w.issue = fmt.Sprintf("contact %d is in state %v but ListContactsByStatus(%v) lists it %d time(s)", c.id, ac.state, ac.state, found)
+			}
+			for _, st := range []protocoltypes.ContactState{protocoltypes.ContactState_ContactStateToRequest, protocoltypes.ContactState_ContactStateReceived, protocoltypes.ContactState_ContactStateAdded,
+				protocoltypes.ContactState_ContactStateRemoved, protocoltypes.ContactState_ContactStateDiscarded, protocoltypes.ContactState_ContactStateBlocked} {
+				if st == ac.state {
+					continue
+				}
+				for _, sc := range ms.ListContactsByStatus(st) {
+					if string(sc.Pk) == string(c.raw) {
+						w.issue = fmt.Sprintf("contact %d is in state %v but ListContactsByStatus(%v) lists it too", c.id, ac.state, st)
+					}
+				}
+			}
+		}
 		recs[i] = r
 		ow := "None"
 		if r.own >= 0 {
